@@ -181,12 +181,14 @@ def build(tier):
             self.v, self.m = v, m
 
     def ma_array(ex, st, a, k):
-        return MaskedVec(a[0], k["mask"])
+        return MaskedVec(a[0], k.get("mask"))
 
     def np_argmax(ex, st, a, k):
         x = a[0]
         if isinstance(x, Vec):
             return argmax(ex, st, [x], {})
+        if isinstance(x, MaskedVec) and x.m is None:
+            return argmax(ex, st, [x.v], {})                       # numpy.ma.array(v, mask=None): nothing is masked
         if isinstance(x, MaskedVec):
             # numpy.ma: masked entries (mask != 0) are ignored when at least one entry is unmasked
             r = z3.Int(fresh_name("ma_argmax"))
@@ -255,12 +257,82 @@ def build(tier):
     P.contract("agilerl.algorithms.cqn.CQN.get_action", variant="unmasked",
                params={"self": q_self("CQN"), "obs": "opaque", "epsilon": "real", "action_mask": (lambda ex, st, l: None)},
                requires=["0 <= epsilon", "epsilon <= 1"], frame_fields=False, ensures=["inrange1(result)"], replay="c14:dqn")
+    # ---- multi-agent deterministic learners: the per-agent body of MADDPG/MATD3.get_action (one generic agent index, one generic batch row)
+    from .C17 import region
+
+    def clamp(ex, st, a, k):
+        x, lo, hi = a[0], (a[1] if len(a) > 1 else k.get("min")), (a[2] if len(a) > 2 else k.get("max"))
+        kk = z3.Int("k!clamp")
+        lo_k = lo.arr[kk] if isinstance(lo, Vec) else TT.toreal(lo)
+        hi_k = hi.arr[kk] if isinstance(hi, Vec) else TT.toreal(hi)
+        xv = x.arr[kk]
+        return Vec(x.n, z3.Lambda([kk], z3.If(xv < lo_k, lo_k, z3.If(xv > hi_k, hi_k, xv))), "clamp")    # torch.clamp = min(max(x, lo), hi), lo <= hi
+    P.lib["torch.clamp"] = clamp
+    P.lib["torch.as_tensor"] = lambda ex, st, a, k: a[0]
+    P.lib["numpy.array"] = lambda ex, st, a, k: a[0]
+
+    class PerAgent:
+        """self.min_action / self.max_action: one bound vector per agent; any index gives the generic agent's bounds"""
+
+        def __init__(self, v):
+            self.v = v
+
+        def getitem(self, ex, st, idx):
+            return self.v
+
+    def ma_self(cls, discrete):
+        def mk(ex, st, label):
+            o = Obj("model." + cls, label="self")
+            o.fields.update(dict(accelerator=None, torch_compiler=None, discrete_actions=discrete, action_spaces=Opaque("action_spaces"),
+                                 min_action=PerAgent(Vec(D, LO, "low")), max_action=PerAgent(Vec(D, HI, "high")),
+                                 action_noise=Fn(model=lambda ex, st, a, k: Vec(NA if discrete else D, NOISE, "noise"), name="action_noise")))
+            return o
+        return mk
+    P.specns.update(dict(low=Vec(D, LO, "low"), high=Vec(D, HI, "high"), actor_box=Vec(D, ACT, "actor_out"),
+                         unit_box=lambda v: in_box(v, Vec(v.n, z3.K(z3.IntSort(), z3.RealVal(0)), "0"), Vec(v.n, z3.K(z3.IntSort(), z3.RealVal(1)), "1"))))
+    _ma_getattr = MaskedVec.__dict__.get("getattr")
+
+    def mv_getattr(self, ex, st, name):
+        if name == "argmax":
+            return Fn(model=lambda ex, st, a, k: np_argmax(ex, st, [self], {}), name="argmax")
+        raise Undecided(f"masked array attribute {name}")
+    MaskedVec.getattr = mv_getattr
+    for cls, mod in (("MADDPG", "maddpg"), ("MATD3", "matd3")):
+        q = f"agilerl.algorithms.{mod}.{cls}.get_action"
+        body = region("actor.eval()", "action_dict[agent_id] = actions.cpu().numpy()")
+        # continuous: whatever the noise, every component of the stored action is inside ITS OWN bounds (training), or is the
+        # actor's output unchanged (evaluation; the actor's own rescaling keeps it inside the bounds)
+        P.contract(q, variant="box", region=body,
+                   params={"self": ma_self(cls, False), "obs": "opaque", "infos": "opaque", "training": "bool", "idx": "int", "agent_id": (lambda ex, st, l: "agent_0"),
+                           "actor": (lambda ex, st, l: ActorModel(Vec(D, ACT, "actor_out"))), "action_dict": (lambda ex, st, l: {})},
+                   requires=["in_box(actor_box, low, high)"], frame_fields=False,
+                   ensures=["in_box(action_dict[agent_id], low, high)"], replay="c14:ma_box")
+        # discrete: scores are clamped to [0, 1] in training; the index is then taken among unmasked entries only
+        P.contract(q, variant="discrete-scores", region=body,
+                   params={"self": ma_self(cls, True), "obs": "opaque", "infos": "opaque", "training": "bool", "idx": "int", "agent_id": (lambda ex, st, l: "agent_0"),
+                           "actor": (lambda ex, st, l: ActorModel(Vec(NA, Q, "q_values"))), "action_dict": (lambda ex, st, l: {})},
+                   requires=[], frame_fields=False,
+                   ensures=["implies(training, unit_box(action_dict[agent_id]))", "action_dict[agent_id].n == NA"], replay="c14:ma_discrete")
+        pick = region("mask = 1 - np.array(action_masks[agent])", "discrete_action_dict[agent] = action.argmax(axis=-1)")
+        P.contract(q, variant="discrete-masked", region=pick,
+                   params={"self": ma_self(cls, True), "obs": "opaque", "infos": "opaque", "training": "bool", "agent": (lambda ex, st, l: "agent_0"),
+                           "action": (lambda ex, st, l: Vec(NA, Q, "scores")), "action_masks": (lambda ex, st, l: {"agent_0": Vec(NA, M, "mask")}),
+                           "discrete_action_dict": (lambda ex, st, l: {})},
+                   requires=[], frame_fields=False,
+                   ensures=["legal(discrete_action_dict[agent], action_masks[agent])", "best_legal(discrete_action_dict[agent], Vec_q, action_masks[agent])"],
+                   replay="c14:ma_discrete")
+        P.contract(q, variant="discrete-unmasked", region=pick,
+                   params={"self": ma_self(cls, True), "obs": "opaque", "infos": "opaque", "training": "bool", "agent": (lambda ex, st, l: "agent_0"),
+                           "action": (lambda ex, st, l: Vec(NA, Q, "scores")), "action_masks": (lambda ex, st, l: {"agent_0": None}),
+                           "discrete_action_dict": (lambda ex, st, l: {})},
+                   requires=[], frame_fields=False,
+                   ensures=["0 <= discrete_action_dict[agent]", "discrete_action_dict[agent] < NA"], replay="c14:ma_discrete")
     P.trusted += ["numpy.ma.array(values, mask) + numpy.argmax: masked entries are ignored when at least one entry is unmasked; numpy.where; "
                   "numpy.random.uniform in [0,1), numpy.random.randint(lo, hi) in [lo, hi), random.random() in [0,1)"]
     P.assumptions += ["network outputs are finite reals; masks are 0/1 with at least one legal action; low <= high component-wise",
                       "accelerator is None"]
     P.uncovered += ["with epsilon = 0 the policy branch is taken iff the uniform draw is > 0 (a draw of exactly 0.0 explores): "
                     "'exploration switched off' is read as 'the policy branch is taken'",
-                    "PPO/IPPO evaluation clipping, MADDPG/MATD3, bandits (native adapters / not covered)",
+                    "PPO/IPPO evaluation clipping, bandits; MADDPG/MATD3 env-defined actions and agent masks (native adapters / not covered)",
                     "batch shape of the returned array"]
     return P
